@@ -170,7 +170,7 @@ def run_multiplier(col):
     fc, unknowns, (ra, rb), d, tdim = _setup(it, "Field2")
     n = len(unknowns)
     m1 = sym("m1")
-    items = [Item(None, "a", n), Item(m1, "b", n)]
+    items = [Item(None, "a", n), Item(m1, "b", n), Item(0, "c", n)]  # no multiplier, a symbolic one, and an item switched off by a zero multiplier
     for i_ in items:
         i_.field = fc
     fun_items = it.get("felupe.tools._newton:fun_items")
@@ -183,9 +183,9 @@ def run_multiplier(col):
     Ka, Kb = symarray("Ka", (n, n)), symarray("Kb", (n, n))
     okf = all(is_zero(P(f[I]) - (ra_[I, 0] + m1 * rb_[I, 0])) for I in range(n))
     okK = all(is_zero(P(K[I, J]) - (Ka[I, J] + m1 * Kb[I, J])) for I in range(n) for J in range(n))
-    col.add("C01.O8", "tools._newton.fun_items", "vector sum: items without multiplier enter with factor 1, others multiplied by their multiplier", okf,
+    col.add("C01.O8", "tools._newton.fun_items", "vector sum: items without multiplier enter with factor 1, others multiplied by their multiplier (a zero multiplier switches the item off)", okf,
             method_where(it.get("felupe.tools._newton:fun_items").cls, "x") if False else "tools/_newton.py fun_items")
-    col.add("C01.O8", "tools._newton.jac_items", "matrix sum uses the same multiplier as the vector sum", okK, "tools/_newton.py jac_items")
+    col.add("C01.O8", "tools._newton.jac_items", "matrix sum uses the same multiplier as the vector sum (also when it is zero)", okK, "tools/_newton.py jac_items")
     finish_info(col, it)
 
 
